@@ -437,14 +437,43 @@ def h_sections_and_equations(eng):
     eng.prove("section.assignment_statement_keeps_target_and_value", z3.BoolVal(node.cls.name == "AssignmentStatement" and node.fields["left"].items == [l] and node.fields["right"] is r))
 
 
+def h_string_comment(eng):
+    """exitString_comment / exitComment: the comment of a declaration is the text between the delimiting quotes of its STRING token,
+    character for character -- escaped quotes inside it, also at its very beginning or end, belong to the text.  (A STRING token is
+    `"` followed by characters other than `"` and `\\`, or backslash escapes, followed by `"`; the empty comment has no token.)"""
+    A, L, P = setup(eng)
+    shape = ["no-string", "plain", "escaped-quote-inside"][eng.choice(3)]
+    q, esc = z3.StringVal('"'), z3.StringVal('\\"')
+    if shape == "no-string":
+        body, text, toks = z3.StringVal(""), z3.StringVal(""), []
+    else:
+        pre, post = eng.fresh_str("pre"), eng.fresh_str("post")
+        eng.assume(z3.Not(z3.Contains(pre, q)))
+        eng.assume(z3.Not(z3.Contains(post, q)))
+        body = pre if shape == "plain" else z3.Concat(pre, esc, post)
+        text = z3.Concat(q, body, q)
+        toks = [Tok(text)]
+    eng.input("comment_text", body)
+    c = ctx(eng, P, "String_comment", getText=text, STRING=VList(toks))
+    call(eng, L, "exitString_comment", c)
+    eng.cover("comment." + shape)
+    got = get_ast(eng, L, c)
+    eng.prove("comment.text_between_the_outer_quotes_kept_character_for_character",
+              ops.to_z3(got) == body if (ops.is_sym(got) or isinstance(got, str)) else z3.BoolVal(False))
+    outer = ctx(eng, P, "Comment", string_comment=c, annotation=None)
+    call(eng, L, "exitComment", outer)
+    eng.prove("comment.comment_rule_hands_the_text_on", z3.BoolVal(get_ast(eng, L, outer) is got))
+
+
 HARNESSES = [("component clause walk", h_component_clause),
              ("duplicate declaration", h_duplicate_rejected),
              ("declarations inside an extends modification", h_extends_modification_declarations),
              ("composition: visibility and section order", h_composition),
              ("nested classes and extends", h_nested_classes),
-             ("sections, equations and statements", h_sections_and_equations)]
+             ("sections, equations and statements", h_sections_and_equations),
+             ("string comments", h_string_comment)]
 EXPECTED_COVER = {"clause.n1", "clause.n2", "clause.n3", "clause.variant0", "clause.variant1", "duplicate.case0", "duplicate.case1", "extends.redeclaration",
-                  "composition.0_sections", "composition.4_sections", "composition.repeated_visibility_section", "nesting.depth1", "nesting.depth2"} | {"section." + k for k in ("equation_section", "algorithm_section", "if_equation", "when_equation", "for_equation", "connect", "simple", "statement")}
+                  "comment.no-string", "comment.plain", "comment.escaped-quote-inside", "composition.0_sections", "composition.4_sections", "composition.repeated_visibility_section", "nesting.depth1", "nesting.depth2"} | {"section." + k for k in ("equation_section", "algorithm_section", "if_equation", "when_equation", "for_equation", "connect", "simple", "statement")}
 BOUNDED = True
 LEVEL = "proof"
 TRUSTED = ["the ANTLR runtime and the generated ModelicaParser/Lexer: which contexts exist for a text, their accessor results and the order in which ParseTreeWalker calls enter*/exit* (emulated by the harness from the grammar's rule structure)",
